@@ -276,6 +276,7 @@ class H2Protocol:
             elif isinstance(event, h2.events.StreamReset):
                 await self._close_stream(event.stream_id)
                 await self._window_updated(event.stream_id)
+                await self.send(Updated(idle=self.idle))
             elif isinstance(event, h2.events.WindowUpdated):
                 await self._window_updated(event.stream_id)
             elif isinstance(event, h2.events.PriorityUpdated):
